@@ -71,7 +71,7 @@ let float_share (len : z) (actual : z) (avail : z) : z =
 
 let table : (string * (sexp -> sexp)) list = [
   ("C12", run_C12X);
-  ("C10", run_C10S);
+  ("C10", run_C10IO);
   ("C07", run_C07);
   ("C08", run_C08);
   ("C06", run_C06);
@@ -86,7 +86,7 @@ let table : (string * (sexp -> sexp)) list = [
   ("C18", run_C18T);
   ("C17", run_C17);
   ("C19", run_C19F);
-  ("C11", run_C11);
+  ("C11", run_C11IO);
   ("C13", run_C13G);
   ("C13P", run_C13);
   ("C14", run_C14 float_share);
